@@ -42,9 +42,11 @@ var starts = []string{"root", "parent", "parent-link-root"}
 func main() { vlib.Run("C41", run) }
 
 func run(c *vlib.Ctx) {
-	c.Rule("path grid: start in {R, parent S, S/link-root -> R} + 1..3 components from {f,a,b,..,.,<empty>,root,root-evil,rootx,roo,x,..hidden, symlinks link-out/link-in/flink-out/link-up} (first level all 16, deeper levels 10), x root spelled {clean, trailing slash} x API {FileManager.Put, FileManager.PutMany, Filestore.Put, Filestore.PutMany}; a case = one (root form, API, path) offered to a fresh FileManager over a directory tree with distinct file contents; stratum random-deep adds 3..8 random components; distinct = FNV of root form+API+path; non-trivial = the path is lexically outside the root although its string begins with the root string (sibling prefix or '..'), OR the reference was accepted, its record decoded from the datastore, resolved inside the root and read back byte-identical to the file the path names")
+	c.Rule("path grid: start in {R, parent S, S/link-root -> R} + 1..3 components from {f,a,b,..,.,<empty>,root,root-evil,rootx,roo,x,..hidden, symlinks link-out/link-in/flink-out/link-up} (first level all 16, deeper levels 10), x root spelled {clean, trailing slash} x API {FileManager.Put, FileManager.PutMany, Filestore.Put, Filestore.PutMany}; a case = one (root form, API, path) offered to a fresh FileManager over a directory tree with distinct file contents; stratum random-deep adds 3..8 random components; distinct = FNV of root form+API+path; stratum scheme-grid offers scheme-like strings (http:, HTTP:, https:/, http:// ... + 1..3 components from {..,x,f,root-evil,a}) to FileManagers with AllowUrls on and off; stratum history offers 4..12 references to ONE FileManager with the same (mostly outside) path repeated back to back, through changing APIs and inside one PutMany; non-trivial = the path is lexically outside the root although its string begins with the root string (sibling prefix or '..'), OR the reference was accepted, its record decoded from the datastore, resolved inside the root and read back byte-identical to the file the path names")
 	c.Cases("grid", gridTotal(), gridCase)
 	c.Cases("random-deep", c.N(4000, 120000), randomDeep)
+	c.Cases("scheme-grid", schemeTotal(), schemeCase)
+	c.Cases("history", c.N(3000, 60000), historyCase)
 	c.Exhaustive() // the grid stratum is the complete product in both tiers
 }
 
@@ -101,13 +103,19 @@ func insideByComponents(R, p string) bool {
 }
 
 type tally struct {
-	outside, outsideRejected, insideAccepted, readBack, symlinky int64
+	outside, outsideRejected, insideAccepted, readBack, symlinky, urlRecords int64
 }
 
-// eval offers one path and applies the oracle.
-func (w *world) eval(rootForm, api, raw string, t *tally) {
-	k := w.k
-	ctx := context.Background()
+// store is one FileManager/Filestore under test.
+type store struct {
+	mds     ds.Datastore
+	fm      *filestore.FileManager
+	fs      *filestore.Filestore
+	rootStr string
+	offers  int
+}
+
+func (w *world) newStore(rootForm string, allowUrls bool) *store {
 	rootStr := w.R
 	if rootForm == "trailing-slash" {
 		rootStr += "/"
@@ -115,106 +123,166 @@ func (w *world) eval(rootForm, api, raw string, t *tally) {
 	mds := ds.NewMapDatastore()
 	fm := filestore.NewFileManager(mds, rootStr)
 	fm.AllowFiles = true
-	fs := filestore.NewFilestore(bstore.NewBlockstore(mds), fm, nil)
+	fm.AllowUrls = allowUrls
+	return &store{mds: mds, fm: fm, fs: filestore.NewFilestore(bstore.NewBlockstore(mds), fm, nil), rootStr: rootStr}
+}
 
-	// the file the path names, as the operating system resolves it
-	data, rerr := os.ReadFile(raw)
-	readable := rerr == nil
-	if !readable {
-		data = []byte("no such file: " + raw)
+// eval offers one path to a fresh FileManager and applies the oracle.
+func (w *world) eval(rootForm, api, raw string, t *tally) {
+	st := w.newStore(rootForm, false)
+	w.k.SetShape(api + "|" + rootForm + "|" + strings.Replace(raw, w.S, "S", 1)) // distinctness is a function of the input only
+	w.offer(st, api, raw, 1, t)
+}
+
+// offer offers `copies` nodes carrying the same FullPath through one call of
+// api to st (copies > 1 only makes sense for the PutMany APIs: the blocks of
+// one file arrive back to back) and judges every node by the containment
+// oracle. It returns whether every node was accepted.
+func (w *world) offer(st *store, api, raw string, copies int, t *tally) bool {
+	k := w.k
+	ctx := context.Background()
+	abs := filepath.IsAbs(raw)
+
+	// the file the offered string would name: as the operating system resolves it
+	// (absolute strings), or, for strings that are not absolute (scheme-like
+	// strings), the file a reader that joins it to the root would open
+	target := raw
+	if !abs {
+		target = filepath.Join(w.R, raw)
 	}
-	nd := merkledag.NewRawNode(data)
-	node := &posinfo.FilestoreNode{Node: nd, PosInfo: &posinfo.PosInfo{Offset: 0, FullPath: raw}}
-
+	content, rerr := os.ReadFile(target)
+	readable := rerr == nil && len(content) > 8
 	disp := strings.Replace(raw, w.S, "S", 1)
-	k.Logf("%s root=%q FullPath=%q", api, strings.Replace(rootStr, w.S, "S", 1), disp)
-	k.SetShape(api + "|" + rootForm + "|" + disp) // distinctness is a function of the input only
+
+	var nodes []*posinfo.FilestoreNode
+	var datas [][]byte
+	for j := 0; j < copies; j++ {
+		st.offers++
+		off := 0
+		var data []byte
+		if readable {
+			off = st.offers % 8 // distinct region => distinct CID for every offer of the same file
+			data = content[off:]
+		} else {
+			data = []byte(fmt.Sprintf("no such file: %s (offer %d)", raw, st.offers))
+		}
+		nd := merkledag.NewRawNode(data)
+		nodes = append(nodes, &posinfo.FilestoreNode{Node: nd, PosInfo: &posinfo.PosInfo{Offset: uint64(off), FullPath: raw}})
+		datas = append(datas, data)
+	}
+
+	k.Logf("%s root=%q allowUrls=%v FullPath=%q x%d", api, strings.Replace(st.rootStr, w.S, "S", 1), st.fm.AllowUrls, disp, copies)
 	var err error
 	switch api {
 	case "FileManager.Put":
-		err = fm.Put(ctx, node)
+		err = st.fm.Put(ctx, nodes[0])
 	case "FileManager.PutMany":
-		err = fm.PutMany(ctx, []*posinfo.FilestoreNode{node})
+		err = st.fm.PutMany(ctx, nodes)
 	case "Filestore.Put":
-		err = fs.Put(ctx, node)
+		err = st.fs.Put(ctx, nodes[0])
 	case "Filestore.PutMany":
-		err = fs.PutMany(ctx, []blocks.Block{node})
+		var bl []blocks.Block
+		for _, n := range nodes {
+			bl = append(bl, n)
+		}
+		err = st.fs.PutMany(ctx, bl)
 	}
-
-	// what was actually written
-	var stored *pb.DataObj
-	key := filestore.FilestorePrefix.Child(dshelp.MultihashToDsKey(nd.Cid().Hash()))
-	if v, gerr := mds.Get(ctx, key); gerr == nil {
-		var d pb.DataObj
-		must(proto.Unmarshal(v, &d))
-		stored = &d
-	}
-
-	if stored != nil {
-		k.Logf("-> err=%v; datastore record: path=%q offset=%d size=%d; offered file readable=%v", errText(err, w.S), stored.GetFilePath(), stored.GetOffset(), stored.GetSize(), readable)
-	} else {
-		k.Logf("-> err=%v; no datastore record", errText(err, w.S))
+	if api == "FileManager.Put" || api == "Filestore.Put" {
+		nodes, datas = nodes[:1], datas[:1]
 	}
 
 	symlinky := false
-	for _, comp := range strings.Split(raw[len(w.S):], "/") {
+	for _, comp := range strings.Split(raw, "/") {
 		if symlinkNames[comp] {
 			symlinky = true
 		}
 	}
 	lexClean := filepath.Clean(raw)
-	lexInside := insideByComponents(w.R, lexClean)
+	// a string that is not an absolute path names nothing inside the root
+	lexInside := abs && insideByComponents(w.R, lexClean)
 
 	// which feature of the input lets an outside path look like an inside one
 	feature := "elsewhere"
-	if strings.HasPrefix(raw, w.R) && len(raw) > len(w.R) {
+	switch {
+	case !abs:
+		feature = "scheme-like"
+	case strings.HasPrefix(raw, w.R) && len(raw) > len(w.R):
 		if raw[len(w.R)] == '/' {
 			feature = "dotdot"
 		} else {
 			feature = "sibling-prefix"
 		}
 	}
-
-	accepted := err == nil
-	switch {
-	case accepted && stored == nil:
-		k.Fail("accepted-not-stored", "an accepted reference is written", "datastore record", "Put returned nil but no record under "+key.String())
-		return
-	case !accepted && stored != nil:
-		k.Fail("rejected-but-stored", "a rejected reference leaves no record", "no record", fmt.Sprintf("error %q and record path=%q", err, stored.GetFilePath()))
-		return
+	if st.offers > copies {
+		feature += "/repeated-or-later-offer"
 	}
-
 	if symlinky {
 		t.symlinky++
 	}
 	if !lexInside {
 		t.outside++
 	}
-	if stored != nil {
+
+	accepted := err == nil
+	for j, node := range nodes {
+		// what was actually written
+		var stored *pb.DataObj
+		key := filestore.FilestorePrefix.Child(dshelp.MultihashToDsKey(node.Cid().Hash()))
+		if v, gerr := st.mds.Get(ctx, key); gerr == nil {
+			var d pb.DataObj
+			must(proto.Unmarshal(v, &d))
+			stored = &d
+		}
+		if stored != nil {
+			k.Logf("-> err=%v; datastore record %d: path=%q offset=%d size=%d; offered file readable=%v", errText(err, w.S), j, stored.GetFilePath(), stored.GetOffset(), stored.GetSize(), readable)
+		} else {
+			k.Logf("-> err=%v; no datastore record %d", errText(err, w.S), j)
+		}
+		switch {
+		case accepted && stored == nil:
+			k.Fail("accepted-not-stored", "an accepted reference is written", "datastore record", "Put returned nil but no record under "+key.String())
+			return accepted
+		case !accepted && stored != nil:
+			k.Fail("rejected-but-stored", "a rejected reference leaves no record", "no record", fmt.Sprintf("error %q and record path=%q", err, stored.GetFilePath()))
+			return accepted
+		}
+		if stored == nil {
+			continue
+		}
+		// a record the read side treats as a URL is not a file reference
+		if filestore.IsURL(stored.GetFilePath()) {
+			if !filestore.IsURL(raw) || !st.fm.AllowUrls {
+				k.Fail("url-record-for-non-url", "only URLs are stored as URL references, and only when enabled", "error", fmt.Sprintf("accepted %q as URL record %q", disp, stored.GetFilePath()))
+			}
+			t.urlRecords++
+			continue
+		}
+		// the read side opens Join(root, FromSlash(stored))
 		resolved := filepath.Clean(filepath.Join(w.R, filepath.FromSlash(stored.GetFilePath())))
 		if !insideByComponents(w.R, resolved) {
-			k.Fail("accept-outside/"+feature, "every stored reference resolves inside the root by path components",
-				fmt.Sprintf("Put(%s) rejected (clean path %s is not under %s)", disp, strings.Replace(lexClean, w.S, "S", 1), "S/root"),
-				fmt.Sprintf("accepted; stored path %q resolves to %s", stored.GetFilePath(), strings.Replace(resolved, w.S, "S", 1)))
-			// still see what Get would read
-			if readable {
-				if blk, gerr := fs.Get(ctx, nd.Cid()); gerr == nil && bytes.Equal(blk.RawData(), data) {
+			obs := fmt.Sprintf("accepted; stored path %q is opened as %s", stored.GetFilePath(), strings.Replace(resolved, w.S, "S", 1))
+			if blk, gerr := st.fs.Get(ctx, node.Cid()); gerr == nil {
+				if outside, oerr := os.ReadFile(resolved); oerr == nil && bytes.Contains(outside, blk.RawData()) && len(blk.RawData()) > 0 {
 					k.C.Count("outside_file_read_through_filestore", 1)
+					obs += fmt.Sprintf("; Get returned %q, bytes of that outside file", blk.RawData())
 				}
 			}
-			return
+			k.Fail("accept-outside/"+feature, "every stored reference resolves inside the root by path components",
+				fmt.Sprintf("Put(%s) rejected (%s is not under S/root)", disp, strings.Replace(lexClean, w.S, "S", 1)), obs)
+			return accepted
 		}
 	}
 	if !lexInside && !symlinky {
-		if accepted {
+		if accepted && !(filestore.IsURL(raw) && st.fm.AllowUrls) {
 			// stored path resolves inside although the offered path is outside: the
 			// reference points at a different file than the one offered
-			k.Fail("accept-outside-rewritten/"+feature, "a path outside the root is rejected", "error", fmt.Sprintf("accepted; stored path %q", stored.GetFilePath()))
-			return
+			k.Fail("accept-outside-rewritten/"+feature, "a path outside the root is rejected", "error", "accepted "+disp)
+			return accepted
 		}
-		t.outsideRejected++
-		return
+		if !accepted {
+			t.outsideRejected++
+		}
+		return accepted
 	}
 	// control: a path that is already in clean form and lies below the root must be
 	// accepted (unclean spellings of inside paths may be refused: the statement
@@ -225,36 +293,42 @@ func (w *world) eval(rootForm, api, raw string, t *tally) {
 			form = "name-starting-with-dots"
 		}
 		k.Fail("inside-rejected/"+form, "a clean path inside the root (by components) is accepted", "nil", strings.ReplaceAll(err.Error(), w.S, "S"))
-		return
+		return accepted
 	}
 	if !accepted {
-		return
+		return accepted
 	}
 	if lexInside && !symlinky {
 		t.insideAccepted++
 	}
 	// Get reads the file the offered path names
-	if !readable {
-		return
+	if !readable || !abs {
+		return accepted
 	}
-	same := !symlinky
-	if symlinky {
-		a, e1 := filepath.EvalSymlinks(raw)
-		b, e2 := filepath.EvalSymlinks(filepath.Join(w.R, filepath.FromSlash(stored.GetFilePath())))
-		same = e1 == nil && e2 == nil && a == b
+	for j, node := range nodes {
+		same := !symlinky
+		if symlinky {
+			var d pb.DataObj
+			v, _ := st.mds.Get(ctx, filestore.FilestorePrefix.Child(dshelp.MultihashToDsKey(node.Cid().Hash())))
+			must(proto.Unmarshal(v, &d))
+			a, e1 := filepath.EvalSymlinks(raw)
+			b, e2 := filepath.EvalSymlinks(filepath.Join(w.R, filepath.FromSlash(d.GetFilePath())))
+			same = e1 == nil && e2 == nil && a == b
+		}
+		if !same {
+			continue
+		}
+		blk, gerr := st.fs.Get(ctx, node.Cid())
+		switch {
+		case gerr != nil:
+			k.Fail("get-wrong-file", "Get of an accepted reference reads the offered file", "bytes of "+disp, "error: "+gerr.Error())
+		case !bytes.Equal(blk.RawData(), datas[j]):
+			k.Fail("get-wrong-file", "Get of an accepted reference reads the offered file", fmt.Sprintf("%q", datas[j]), fmt.Sprintf("%q", blk.RawData()))
+		default:
+			t.readBack++
+		}
 	}
-	if !same {
-		return
-	}
-	blk, gerr := fs.Get(ctx, nd.Cid())
-	switch {
-	case gerr != nil:
-		k.Fail("get-wrong-file", "Get of an accepted reference reads the offered file", "bytes of "+disp, "error: "+gerr.Error())
-	case !bytes.Equal(blk.RawData(), data):
-		k.Fail("get-wrong-file", "Get of an accepted reference reads the offered file", fmt.Sprintf("%q", data), fmt.Sprintf("%q", blk.RawData()))
-	default:
-		t.readBack++
-	}
+	return accepted
 }
 
 func (w *world) startPath(start string) string {
@@ -275,6 +349,7 @@ func (t *tally) finish(k *vlib.Case, raw string, w *world) {
 	c.Count("inside_accepted", t.insideAccepted)
 	c.Count("read_back_identical", t.readBack)
 	c.Count("paths_with_symlink_component", t.symlinky)
+	c.Count("url_records", t.urlRecords)
 	rootPrefixedOutside := t.outside > 0 && strings.HasPrefix(raw, w.R)
 	if rootPrefixedOutside {
 		c.Count("outside_paths_beginning_with_root_string", 1)
@@ -349,4 +424,105 @@ func randomDeep(k *vlib.Case) {
 	var t tally
 	w.eval(rootForm, api, p, &t)
 	t.finish(k, p, w)
+}
+
+// ---------------------------------------------------------------- scheme-like strings
+
+// Strings that look like URLs to some classifiers but not to others, followed
+// by components that climb out of the root. FileManagers with AllowUrls on and off.
+var schemePrefixes = []string{"http:", "HTTP:", "https:", "HTTPS:", "Http:", "http:/", "https:/", "HTTP:/", "http://", "https://", "HTTP://", "hTTps://"}
+var schemeToks = []string{"..", "x", "f", "root-evil", "a"}
+
+const perScheme = 5 + 25 + 125
+
+func schemeTotal() int { return 2 * len(apis) * len(schemePrefixes) * perScheme }
+
+func schemeCase(k *vlib.Case) {
+	i := k.Index
+	cont := i % perScheme
+	i /= perScheme
+	pre := schemePrefixes[i%len(schemePrefixes)]
+	i /= len(schemePrefixes)
+	api := apis[i%len(apis)]
+	i /= len(apis)
+	allowUrls := i == 1
+	n := len(schemeToks)
+	var comps []string
+	switch {
+	case cont < n:
+		comps = []string{schemeToks[cont]}
+	case cont < n+n*n:
+		j := cont - n
+		comps = []string{schemeToks[j/n], schemeToks[j%n]}
+	default:
+		j := cont - n - n*n
+		comps = []string{schemeToks[j/(n*n)], schemeToks[j/n%n], schemeToks[j%n]}
+	}
+	raw := pre + "/" + strings.Join(comps, "/")
+	w := sharedWorld(k)
+	st := w.newStore("clean", allowUrls)
+	k.SetShape(fmt.Sprintf("scheme|%s|%v|%s", api, allowUrls, raw))
+	var t tally
+	accepted := w.offer(st, api, raw, 1, &t)
+	t.finish(k, raw, w)
+	if !k.Failed() && strings.Contains(raw, "..") && (!accepted || t.urlRecords > 0) {
+		k.Nontrivial() // a climbing scheme-like string was refused, or kept as a URL record the read side never opens as a file
+	}
+}
+
+// ---------------------------------------------------------------- histories on one FileManager
+
+// historyCase offers 4..12 references to ONE FileManager: the same path is
+// offered two or three times in a row (a caller retrying a refused add; the
+// blocks of one file arriving back to back, also inside one PutMany), through
+// changing APIs, alternating with inside paths. Every offer is judged by the
+// same oracle.
+func historyCase(k *vlib.Case) {
+	r := k.R
+	w := sharedWorld(k)
+	rootForm := rootForms[r.Intn(2)]
+	allowUrls := r.Chance(1, 3)
+	st := w.newStore(rootForm, allowUrls)
+	outside := []string{w.S + "/x/f", w.S + "/root-evil/f", w.R + "/../x/f", w.S + "/f", w.R + "/../f", w.S + "/rootx/f", w.R + "/a/../../x/a/f", w.R + "-evil/a/f",
+		w.S + "/x/nonexistent", "http:/../../x/f", "HTTP://../../x/f", "https:/../f"}
+	inside := []string{w.R + "/f", w.R + "/a/f", w.R + "/a/b/f", w.R + "/b/f", w.R + "/..hidden/f", w.R + "/root-evil/f", w.R + "/x/f"}
+	var shape []string
+	var t tally
+	prev := ""
+	repeatsOfOutside := 0
+	steps := r.Range(4, 12)
+	for i := 0; i < steps; i++ {
+		var p string
+		switch {
+		case prev != "" && r.Chance(1, 2):
+			p = prev
+		case r.Chance(3, 5):
+			p = outside[r.Intn(len(outside))]
+		default:
+			p = inside[r.Intn(len(inside))]
+		}
+		api := apis[r.Intn(len(apis))]
+		copies := 1
+		if strings.HasSuffix(api, "PutMany") && r.Bool() {
+			copies = r.Range(2, 3)
+		}
+		isOutside := !filepath.IsAbs(p) || !insideByComponents(w.R, p)
+		if isOutside && (p == prev || copies > 1) {
+			repeatsOfOutside++
+		}
+		shape = append(shape, fmt.Sprintf("%s|%s|%d", api, strings.Replace(p, w.S, "S", 1), copies))
+		w.offer(st, api, p, copies, &t)
+		prev = p
+	}
+	k.SetShape("history|" + rootForm + fmt.Sprint(allowUrls) + "|" + strings.Join(shape, ";"))
+	c := k.C
+	c.Count("history_offers", int64(steps))
+	c.Count("history_repeated_outside_offers", int64(repeatsOfOutside))
+	c.Count("outside_paths", t.outside)
+	c.Count("outside_rejected", t.outsideRejected)
+	c.Count("inside_accepted", t.insideAccepted)
+	c.Count("read_back_identical", t.readBack)
+	if !k.Failed() && repeatsOfOutside > 0 && t.readBack > 0 {
+		k.Nontrivial()
+	}
 }
